@@ -16,7 +16,7 @@ use regex::Regex;
 use serde::de::DeserializeOwned;
 use serde::Serialize;
 use simcore::codec::{self, Api, Format};
-use simcore::decl::{gen_f32, gen_f64, gen_int, gen_string, Repr};
+use simcore::decl::{gen_char, gen_f32, gen_f64, gen_int, gen_string, Repr};
 use simcore::rng::Rng;
 use simcore::simio::{SimReader, SimSink, SimWriter};
 
@@ -101,6 +101,8 @@ macro_rules! as_ref_impl {
         <$name as AsRef<$other>>::as_ref($s).clone()
     };
 }
+
+pub type Text = String;
 
 pub const fn cap_500(x: i32) -> i32 {
     if x > 500 {
@@ -344,6 +346,20 @@ fn float_text(rng: &mut Rng, lo: f64, hi: f64) -> String {
 
 chain_decls! {
     list = CHAIN_BASE, with = with_chain_base, surface = _assert_surface_base;
+    // the `any` family (inner types the macro does not know): text or a char that may itself be
+    // white space, entering through the shared non-string FromStr / TryFrom / Deserialize code
+    #[nutype(derive(Debug, Clone, PartialEq, Display, FromStr, From, Into, AsRef, Deref, Serialize, Deserialize))]
+    struct AnyText(Text);
+    family = "other"; validated = false; arbitrary = false; default = false;
+    gen = |r| gen_string(r, 6);
+    text = |r| gen_string(r, 6);
+
+    #[nutype(validate(predicate = |c| *c != '\u{0}'), derive(Debug, Clone, Copy, PartialEq, Display, FromStr, TryFrom, Into, AsRef, Deref, Serialize, Deserialize))]
+    struct AnySep(char);
+    family = "other"; validated = true; arbitrary = false; default = false;
+    gen = |r| gen_char(r);
+    text = |r| gen_char(r).to_string();
+
     // `new_unchecked` and `const_fn` opted in: every safe entry point still goes through the guards
     #[nutype(new_unchecked, sanitize(trim, uppercase), validate(not_empty, len_char_max = 10), default = " ok ",
         derive(Debug, Clone, PartialEq, Display, FromStr, TryFrom, Into, AsRef, Deref, Serialize, Deserialize, Default, Arbitrary))]
